@@ -200,6 +200,61 @@ pub fn run(p: &Program, mode: Mode, limits: Limits) -> Outcome {
     run_with(p, mode, limits, false)
 }
 
+/// Run until `stop` returns true for an answer (that answer is included), or the limits hit.
+pub fn run_until(p: &Program, mode: Mode, limits: Limits, stop: &mut dyn FnMut(&Answer, u64) -> bool) -> Outcome {
+    let ctx = Rc::new(RunCtx::default());
+    let mut answers = vec![];
+    let mut metas = vec![];
+    let mut end = End::Exhausted;
+    let mut fused = true;
+    let ctx2 = ctx.clone();
+    let r = guarded(limits.budget, || {
+        let env = Env::new();
+        let (qvars, goal) = assemble(p, mode, &env);
+        let query: Query<Raw, U, E> = Query::new(qvars, goal);
+        let mut it = query.run_with_user(VUser::default(), ctx2);
+        let mut n = 0;
+        loop {
+            if n >= limits.max_answers {
+                end = End::Truncated;
+                break;
+            }
+            match it.next() {
+                Some(raw) => {
+                    let (a, mut m) = convert(&raw.0);
+                    m.steps = crate::guard::steps();
+                    let done = stop(&a, m.steps);
+                    answers.push(a);
+                    metas.push(m);
+                    n += 1;
+                    if done {
+                        end = End::Truncated;
+                        break;
+                    }
+                }
+                None => {
+                    for _ in 0..3 {
+                        if it.next().is_some() {
+                            fused = false;
+                        }
+                    }
+                    break;
+                }
+            }
+        }
+    });
+    let steps = match &r {
+        Guarded::Budget(s) => *s,
+        _ => 0,
+    };
+    match r {
+        Guarded::Ok(()) => {}
+        Guarded::Budget(s) => end = End::Budget(s),
+        Guarded::Panic(p) => end = End::Panic(p),
+    }
+    Outcome { answers, meta: metas, end, steps, ctx, fused }
+}
+
 pub fn run_with(p: &Program, mode: Mode, limits: Limits, check_lifecycle: bool) -> Outcome {
     let ctx = Rc::new(RunCtx::default());
     ctx.check_lifecycle.set(check_lifecycle);
